@@ -81,8 +81,8 @@ static void run_unit(const std::map<std::string,std::string>& spec)
                     std::string err = check_result(dst,kt,s,want,kt.range!='r');
                     if (!err.empty()) {
                         const char* tag = err.compare(0,12,"NONCANONICAL")==0?"noncanonical-result":"wrong-result";
-                        if (ks.isMT() && !kt.isMT() && ks.rr=='I' && kt.rel) {
-                            // class of the known finding: identity-reduced MT source, edge-valued relation target; the copy differs from
+                        if (!ks.isEVp() && kt.isEVp() && ks.rr=='I' && kt.rel) {
+                            // class of the known finding: identity-reduced source whose transparent value is 0 (MT, EV*), EV+ relation target; the copy differs from
                             // the expectation only at off-diagonal positions where the source is 0 (zeros implied by identity patterns)
                             Table got; read_eval(dst,kt,s,got); bool only=true; int x[16], xp[16];
                             for (long p=0;p<P;p++) if (!val_eq(kt,got[p],want[p])) { decode_rel(s,p,x,xp); bool od=false; for (int k2=1;k2<=s.K();k2++) if (x[k2]!=xp[k2]) od=true; if (!(od && t[p]==0)) only=false; }
@@ -92,7 +92,16 @@ static void run_unit(const std::map<std::string,std::string>& spec)
                     }
                     else if (inj) {
                         back->compute(dst, rt);
-                        if (rt != src) { Table x; read_eval(rt,ks,s,x); violation(tab_eq(ks,x,t)?"roundtrip-noncanonical":"roundtrip-changed","source [%s]: copy there and back reads [%s] and is %s", tab_str(t).c_str(), tab_str(x).c_str(), tab_eq(ks,x,t)?"a different edge for the same function":"a different function"); }
+                        if (rt != src) { Table x; read_eval(rt,ks,s,x);
+                            const char* tag = tab_eq(ks,x,t)?"roundtrip-noncanonical":"roundtrip-changed";
+                            if (!tab_eq(ks,x,t) && !kt.isEVp() && ks.isEVp() && kt.rr=='I' && ks.rel) {
+                                // the way back is the known finding (identity-reduced MT source -> edge-valued target): differences only at
+                                // off-diagonal positions where the function is 0
+                                bool only=true; int xx[16], xp[16];
+                                for (long p=0;p<P;p++) if (!val_eq(ks,x[p],t[p])) { decode_rel(s,p,xx,xp); bool od=false; for (int k2=1;k2<=s.K();k2++) if (xx[k2]!=xp[k2]) od=true; if (!(od && t[p]==0)) only=false; }
+                                if (only) tag = "copy-identity-implicit-zero";
+                            }
+                            violation(tag,"source [%s]: copy there and back reads [%s] and is %s", tab_str(t).c_str(), tab_str(x).c_str(), tab_eq(ks,x,t)?"a different edge for the same function":"a different function"); }
                     }
                 } catch (MEDDLY::error e) { violation("op-error","source [%s]: COPY threw %s (%s:%u)", tab_str(t).c_str(), e.getName(), e.getFile(), e.getLine()); }
                 if (!tab_is_const(t)) note_nontrivial(hmix(hmix(di,alt), i));
